@@ -1,4 +1,4 @@
 Require Extraction.
 Require Import ExtrOcamlBasic.
 From Herc Require Import Base.Conv Toposort.Model.
-Extraction "c15_model.ml" conv_anchor empty run cycle_ok has_edge wfb is_node nobody.
+Extraction "c15_model.ml" conv_anchor empty run toposort cycle_ok has_edge wfb is_node nobody.
